@@ -14,6 +14,7 @@ use svm::Ledger;
 fn worlds(thorough: bool) -> Vec<Built> {
     let mut v = vec![stdworlds::build_with_roots(&stdworlds::std_spec("c05-std-dfd", [Enc::Dynamic, Enc::Fixed, Enc::Dynamic], 3000, 300), &stdworlds::std_roots())];
     v.push(stdworlds::build_with_roots(&stdworlds::chain_spec("c05-chain-ddd", [Enc::Dynamic, Enc::Dynamic, Enc::Dynamic], 100, 0), &stdworlds::chain_roots()));
+    v.push(stdworlds::build_with_roots(&stdworlds::edge_spec("c05-edge-fdd", [Enc::Fixed, Enc::Dynamic, Enc::Dynamic]), &stdworlds::edge_roots()));
     v.push(stdworlds::build_with_roots(&stdworlds::chain_spec("c05-dust-fdf", [Enc::Fixed, Enc::Dynamic, Enc::Fixed], 3000, 300), &stdworlds::dust_roots()));
     if thorough {
         v.push(stdworlds::build_with_roots(&stdworlds::chain_spec_at("c05-chain-low", [Enc::Dynamic, Enc::Fixed, Enc::Dynamic], 3000, 300, -112640), &stdworlds::chain_roots()));
